@@ -907,6 +907,16 @@ impl<'a, 'ast> Visit<'ast> for Cx<'a> {
         // N5: constructor used as a function value
         for a in &m.args {
             if let syn::Expr::Path(p) = a {
+                // a function path used as a value may be given a specified eta-expansion by the template:
+                // `//@retarget Type::f => |x: T| -> (o: U) ensures .. { Type::f(x) }`
+                let ptxt: String = self.src[a.span().byte_range()].split_whitespace().collect();
+                let hit = self.slot.retarget.iter().find(|(k, v)| k == &ptxt && v.starts_with('|')).map(|(_, v)| v.clone());
+                if let Some(rep) = hit {
+                    let r = a.span().byte_range();
+                    self.replace(r.clone(), rep.clone());
+                    self.note("N5", r.start, &ptxt, &rep);
+                    continue;
+                }
                 if let Some(last) = p.path.segments.last() {
                     let nm = last.ident.to_string();
                     let upper = nm.chars().next().map(|c| c.is_uppercase()).unwrap_or(false);
@@ -961,7 +971,7 @@ impl<'a, 'ast> Visit<'ast> for Cx<'a> {
     fn visit_expr_call(&mut self, c: &'ast syn::ExprCall) {
         if let syn::Expr::Path(p) = &*c.func {
             let key = norm(&p.to_token_stream().to_string());
-            let hit = self.slot.retarget.iter().chain(self.retarget.iter()).find(|(a, _)| !a.starts_with('.') && norm(a) == key).map(|(_, b)| b.clone());
+            let hit = self.slot.retarget.iter().chain(self.retarget.iter()).find(|(a, b)| !a.starts_with('.') && !b.starts_with('|') && norm(a) == key).map(|(_, b)| b.clone());
             if let Some(target) = hit {
                 let r = c.func.span().byte_range();
                 let before = self.src[r.clone()].to_string();
